@@ -159,6 +159,7 @@ type Explorer struct {
 	unkID    int64
 	Err      error
 	NoInline bool
+	steps    int
 	invPhi   map[*ssa.Phi]*T // loop-invariant header phis of the loop being entered
 	probing  bool // evaluating a loop header to see whether its test is decided
 	probeC   *T
@@ -664,8 +665,18 @@ func (e *Explorer) shouldInline(s *pstate, callee *ssa.Function) bool {
 	return true
 }
 
+// maxSteps bounds the work of one exploration (block visits over all paths):
+// an exploration that exceeds it is abandoned with an error, which the rules
+// report as undecided, instead of exhausting time and memory.
+const maxSteps = 1500000
+
 func (e *Explorer) runFrom(b *ssa.BasicBlock, pred int, from int, s *pstate, start int) {
 	if e.Err != nil {
+		return
+	}
+	e.steps++
+	if e.steps > maxSteps {
+		e.Err = fmt.Errorf("exploration budget exceeded in %s (more than %d block visits): too many paths to enumerate", e.Fn.Name(), maxSteps)
 		return
 	}
 	rb := s.rootBlk(b)
@@ -915,7 +926,11 @@ func (e *Explorer) runFrom(b *ssa.BasicBlock, pred int, from int, s *pstate, sta
 // loop header `to` a constant?  (A loop over a composite literal, a counted
 // loop with constant bounds.)  Evaluated on a copy of the state.
 func (e *Explorer) decided(from, to *ssa.BasicBlock, s *pstate, start int) bool {
-	if e.probing || !countedLoop(to) {
+	if e.probing {
+		return false
+	}
+	sh, ok := countedLoop(to)
+	if !ok {
 		return false
 	}
 	t := s.clone()
@@ -925,10 +940,29 @@ func (e *Explorer) decided(from, to *ssa.BasicBlock, s *pstate, start int) bool 
 	e.runFrom(to, from.Index, 0, t, start)
 	e.probing = false
 	e.paths = e.paths[:np]
-	return e.probeC != nil && e.probeC.IsConst()
+	if e.probeC == nil || !e.probeC.IsConst() {
+		return false
+	}
+	// the whole loop must be short: a long counted loop (a pass limit of 1000)
+	// is explored abstractly from the start, not unrolled and then abandoned
+	x, y := t.regs[sh.cmp.X], t.regs[sh.cmp.Y]
+	if x == nil {
+		x = e.val(t, sh.cmp.X)
+	}
+	if y == nil {
+		y = e.val(t, sh.cmp.Y)
+	}
+	if !x.IsConst() || !y.IsConst() {
+		return false
+	}
+	v, bound := x.C, y.C
+	if !sh.indX {
+		v, bound = y.C, x.C
+	}
+	return sh.tripsWithin(v, bound, maxUnroll-s.unroll[to.Index])
 }
 
-const maxUnroll = 64
+const maxUnroll = 40
 
 // iterate: take one more concrete iteration of the loop at header `to`.
 func (e *Explorer) iterate(from, to *ssa.BasicBlock, s *pstate, start int) {
@@ -1265,22 +1299,38 @@ func freshBase(b *T) (*T, bool) {
 // countedLoop: the loop at header h is left by a comparison of an induction
 // variable (a header phi that every back edge advances by a constant, or that
 // phi plus a constant) with a value computed outside the loop.  Only such
-// loops can have a statically known trip count.
-func countedLoop(h *ssa.BasicBlock) bool {
+// loops can have a statically known trip count.  Returns the comparison, which
+// operand is the induction variable, and its step per iteration.
+type loopShape struct {
+	cmp   *ssa.BinOp
+	indX  bool  // the induction variable is cmp.X (else cmp.Y)
+	step  int64 // advance per iteration
+	contT bool  // the loop continues on the true branch
+}
+
+func countedLoop(h *ssa.BasicBlock) (loopShape, bool) {
+	var sh loopShape
 	ifi, ok := h.Instrs[len(h.Instrs)-1].(*ssa.If)
 	if !ok {
-		return false
+		return sh, false
 	}
 	cmp, ok := ifi.Cond.(*ssa.BinOp)
 	if !ok {
-		return false
+		return sh, false
 	}
 	switch cmp.Op {
 	case token.LSS, token.LEQ, token.GTR, token.GEQ, token.NEQ:
 	default:
-		return false
+		return sh, false
 	}
-	induction := func(v ssa.Value) bool {
+	constOf := func(v ssa.Value) (int64, bool) {
+		c, ok := v.(*ssa.Const)
+		if !ok || c.Value == nil {
+			return 0, false
+		}
+		return c.Int64(), true
+	}
+	induction := func(v ssa.Value) (int64, bool) {
 		if b, ok := v.(*ssa.BinOp); ok && (b.Op == token.ADD || b.Op == token.SUB) {
 			if _, isC := b.Y.(*ssa.Const); isC {
 				v = b.X
@@ -1288,27 +1338,45 @@ func countedLoop(h *ssa.BasicBlock) bool {
 		}
 		phi, ok := v.(*ssa.Phi)
 		if !ok || phi.Block() != h {
-			return false
+			return 0, false
 		}
+		step, have := int64(0), false
 		for i, pred := range h.Preds {
 			if !h.Dominates(pred) {
 				continue // entry edge
 			}
-			step, ok := phi.Edges[i].(*ssa.BinOp)
-			if !ok || (step.Op != token.ADD && step.Op != token.SUB) {
-				return false
+			st, ok := phi.Edges[i].(*ssa.BinOp)
+			if !ok || (st.Op != token.ADD && st.Op != token.SUB) {
+				return 0, false
 			}
-			if _, isC := step.Y.(*ssa.Const); !isC {
-				return false
+			k, isC := constOf(st.Y)
+			if !isC {
+				return 0, false
+			}
+			if st.Op == token.SUB {
+				k = -k
 			}
 			// the step starts from the phi itself or from the value compared (phi + c)
-			if step.X != phi {
-				if b, ok := step.X.(*ssa.BinOp); !ok || b.X != phi {
-					return false
+			if st.X != phi {
+				b, ok := st.X.(*ssa.BinOp)
+				if !ok || b.X != phi {
+					return 0, false
 				}
+				c, isC := constOf(b.Y)
+				if !isC {
+					return 0, false
+				}
+				if b.Op == token.SUB {
+					c = -c
+				}
+				k += c
 			}
+			if have && k != step {
+				return 0, false
+			}
+			step, have = k, true
 		}
-		return true
+		return step, have && step != 0
 	}
 	invariant := func(v ssa.Value) bool {
 		if _, ok := v.(*ssa.Const); ok {
@@ -1320,7 +1388,70 @@ func countedLoop(h *ssa.BasicBlock) bool {
 		_, isParam := v.(*ssa.Parameter)
 		return isParam
 	}
-	return (induction(cmp.X) && invariant(cmp.Y)) || (induction(cmp.Y) && invariant(cmp.X))
+	sh.cmp = cmp
+	// which branch stays in the loop
+	inLoop := func(b *ssa.BasicBlock) bool {
+		seen := map[*ssa.BasicBlock]bool{}
+		var reach func(x *ssa.BasicBlock) bool
+		reach = func(x *ssa.BasicBlock) bool {
+			if x == h {
+				return true
+			}
+			if seen[x] || !h.Dominates(x) {
+				return false
+			}
+			seen[x] = true
+			for _, s := range x.Succs {
+				if reach(s) {
+					return true
+				}
+			}
+			return false
+		}
+		return reach(b)
+	}
+	sh.contT = inLoop(h.Succs[0])
+	if sh.contT == inLoop(h.Succs[1]) {
+		return sh, false // both or neither branch returns to the header: not a plain exit test
+	}
+	if k, ok := induction(cmp.X); ok && invariant(cmp.Y) {
+		sh.indX, sh.step = true, k
+		return sh, true
+	}
+	if k, ok := induction(cmp.Y); ok && invariant(cmp.X) {
+		sh.indX, sh.step = false, k
+		return sh, true
+	}
+	return sh, false
+}
+
+// tripsWithin: with the induction operand at v and the other operand at
+// bound, does the loop leave within max iterations?
+func (sh loopShape) tripsWithin(v, bound int64, max int) bool {
+	for n := 0; n <= max; n++ {
+		x, y := v, bound
+		if !sh.indX {
+			x, y = bound, v
+		}
+		var c bool
+		switch sh.cmp.Op {
+		case token.LSS:
+			c = x < y
+		case token.LEQ:
+			c = x <= y
+		case token.GTR:
+			c = x > y
+		case token.GEQ:
+			c = x >= y
+		case token.NEQ:
+			c = x != y
+		}
+		if c != sh.contT {
+			return true
+		}
+		v += sh.step
+	}
+	return false
 }
 
 // iteration: which concrete iteration(s) of the enclosing unrolled loops the
